@@ -77,7 +77,7 @@ def build_service(rec, behaviours=None):
         @rpc(Unicode, Unicode, _returns=Integer)
         def fail(ctx, code, msg):
             rec.enter('fail', code, msg)
-            raise Fault(code, msg)
+            raise Fault(code or 'Server', msg)
 
         @rpc(Unicode, _returns=Integer)
         def dedicated(ctx, which):
